@@ -85,7 +85,7 @@ def run(ctx, config='rel-all'):
             ctx.anchor_missing('R1', 'String::' + name)
             continue
         I, r = arena.run_fn(ctx, b['id'], config)
-        muts = [e for e in r.events if len(e.stack) == 1 and (e.kind == 'copy' or (e.kind == 'call' and e.callee and any(e.callee.endswith(m) for m in MUT)))]
+        muts = [e for e in r.events if e.is_own() and (e.kind == 'copy' or (e.kind == 'call' and e.callee and any(e.callee.endswith(m) for m in MUT)))]
         if not muts:
             ctx.violation('R1', 'String::' + name, 'no-mutation', 'no byte-level mutation found in String::%s' % name, b.get('span'))
             continue
@@ -103,8 +103,8 @@ def run(ctx, config='rel-all'):
             ctx.anchor_missing('R1', 'String::' + name)
             continue
         I, r = arena.run_fn(ctx, b['id'], config)
-        checks = [e for e in r.events if len(e.stack) == 1 and e.kind == 'call' and e.callee and e.callee.endswith('is_char_boundary')]
-        sinks = [e for e in r.events if len(e.stack) == 1 and e.kind == 'call' and e.callee and (e.callee.endswith('::splice') or e.callee.endswith('::drain'))]
+        checks = [e for e in r.events if e.is_own() and e.kind == 'call' and e.callee and e.callee.endswith('is_char_boundary')]
+        sinks = [e for e in r.events if e.is_own() and e.kind == 'call' and e.callee and (e.callee.endswith('::splice') or e.callee.endswith('::drain'))]
         rets = r.ret
         n1 += 1
         # both bounds (when given) must have been checked, and the check must be asserted (panic on the false edge)
@@ -130,8 +130,8 @@ def run(ctx, config='rel-all'):
         if b is None:
             continue
         I, r = arena.run_fn(ctx, b['id'], config)
-        adds = [t for e in r.events if len(e.stack) == 1 for a in (e.args or []) if isinstance(a, tuple) for t in subterms(a) if isinstance(t, tuple) and t and t[0] == 'app' and t[1] == 'add' and t[3] == C(1) and ('Included' in repr(t[2]) or 'Excluded' in repr(t[2]))]
-        exps = [e for e in r.events if len(e.stack) == 1 and e.kind == 'panic' and 'checked_add' in repr(e.args[0])]
+        adds = [t for e in r.events if e.is_own() for a in (e.args or []) if isinstance(a, tuple) for t in subterms(a) if isinstance(t, tuple) and t and t[0] == 'app' and t[1] == 'add' and t[3] == C(1) and ('Included' in repr(t[2]) or 'Excluded' in repr(t[2]))]
+        exps = [e for e in r.events if e.is_own() and e.kind == 'panic' and 'checked_add' in repr(e.args[0])]
         if len(exps) >= 2:
             ctx.ok('R4', 'String::%s: Included/Excluded bound + 1 is checked (panics like std instead of wrapping)' % name, '%d checked_add(..).expect sites' % len(exps))
         else:
@@ -170,7 +170,7 @@ def run(ctx, config='rel-all'):
             ctx.ok('R2', '%s: unsafe fn — validity of the bytes is the caller\'s obligation' % fn, 'signature')
             continue
         I, r = arena.run_fn(ctx, b['id'], config)
-        sites = [e for e in r.events if len(e.stack) == 1 and e.kind == 'call' and e.callee and e.callee.endswith(('from_utf8_unchecked', 'from_utf8_unchecked_mut'))]
+        sites = [e for e in r.events if e.is_own() and e.kind == 'call' and e.callee and e.callee.endswith(('from_utf8_unchecked', 'from_utf8_unchecked_mut'))]
         for e in sites:
             n2 += 1
             cls = classify_view(I, r, e, e.args[0], fn)
@@ -216,8 +216,8 @@ def run(ctx, config='rel-all'):
     b = string_method(db, 'pop')
     if b:
         I, r = arena.run_fn(ctx, b['id'], config)
-        sl = [e for e in r.events if len(e.stack) == 1 and e.kind == 'call' and e.callee and e.callee.endswith('::set_len')]
-        lu = [e for e in r.events if len(e.stack) == 1 and e.kind == 'call' and e.callee and e.callee.endswith('len_utf8')]
+        sl = [e for e in r.events if e.is_own() and e.kind == 'call' and e.callee and e.callee.endswith('::set_len')]
+        lu = [e for e in r.events if e.is_own() and e.kind == 'call' and e.callee and e.callee.endswith('len_utf8')]
         okv = len(sl) == 1 and len(lu) == 1 and strip(sl[0].args[1]) in (('app', 'wsub', LEN, lu[0].ret), app('sub', LEN, lu[0].ret))
         check('pop', 'len := len - ch.len_utf8() of the last char', okv, '', b.get('span'))
         alts = [t for t, _ in arena.alternatives(I, r.ret, set())]
@@ -226,9 +226,9 @@ def run(ctx, config='rel-all'):
     if b:
         I, r = arena.run_fn(ctx, b['id'], config)
         idx = ('param', 2)
-        cp = [e for e in r.events if len(e.stack) == 1 and e.kind == 'copy']
-        sl = [e for e in r.events if len(e.stack) == 1 and e.kind == 'call' and e.callee and e.callee.endswith('::set_len')]
-        lu = [e for e in r.events if len(e.stack) == 1 and e.kind == 'call' and e.callee and e.callee.endswith('len_utf8')]
+        cp = [e for e in r.events if e.is_own() and e.kind == 'copy']
+        sl = [e for e in r.events if e.is_own() and e.kind == 'call' and e.callee and e.callee.endswith('::set_len')]
+        lu = [e for e in r.events if e.is_own() and e.kind == 'call' and e.callee and e.callee.endswith('len_utf8')]
         if cp and sl and lu:
             w = lu[0].ret
             nxt = app('add', idx, w)
@@ -245,9 +245,9 @@ def run(ctx, config='rel-all'):
         I, r = arena.run_fn(ctx, b['id'], config)
         idx, bytes_ = ('param', 2), ('param', 3)
         amt = app('len', bytes_)
-        cp = [e for e in r.events if len(e.stack) == 1 and e.kind == 'copy']
-        sl = [e for e in r.events if len(e.stack) == 1 and e.kind == 'call' and e.callee and e.callee.endswith('::set_len')]
-        rs = [e for e in r.events if len(e.stack) == 1 and e.kind == 'call' and e.callee and e.callee.endswith('::reserve')]
+        cp = [e for e in r.events if e.is_own() and e.kind == 'copy']
+        sl = [e for e in r.events if e.is_own() and e.kind == 'call' and e.callee and e.callee.endswith('::set_len')]
+        rs = [e for e in r.events if e.is_own() and e.kind == 'call' and e.callee and e.callee.endswith('::reserve')]
         check('insert_bytes', 'reserve(bytes.len()) first', len(rs) == 1 and rs[0].args[1] == amt)
         if len(cp) == 2 and sl:
             f = set(cp[0].state.facts) | {('le', idx, LEN)}
@@ -260,7 +260,7 @@ def run(ctx, config='rel-all'):
             check('insert_bytes', 'shape (two copies, one set_len)', False)
     # ---- thin compositions: the bytes handed to the byte vector are exactly the UTF-8 encoding of the argument
     def own_calls(r, suffix):
-        return [e for e in r.events if len(e.stack) == 1 and e.kind == 'call' and e.callee and e.callee.endswith(suffix)]
+        return [e for e in r.events if e.is_own() and e.kind == 'call' and e.callee and e.callee.endswith(suffix)]
     b = string_method(db, 'insert')
     if b:
         I, r = arena.run_fn(ctx, b['id'], config)
@@ -311,7 +311,7 @@ def run(ctx, config='rel-all'):
     if b:
         I, r = arena.run_fn(ctx, b['id'], config)
         L = [v for (bid, h), v in r.loops.items() if bid == b['id']]
-        ev = [e for e in r.events if len(e.stack) == 1]
+        ev = [e for e in r.events if e.is_own()]
         gl = [(l, v) for rec in L for l, v in rec['init'].items() if v[0] == 'agg' and v[1].endswith('SetLenOnDrop')]
         okg = len(L) == 1 and len(gl) == 1 and field_of(gl[0][1], 'idx') == C(0) and field_of(gl[0][1], 'del_bytes') == C(0) and field_of(gl[0][1], 's') == SELF
         check('retain', 'guard starts at idx = 0, del_bytes = 0 on self', okg, '', b.get('span'))
@@ -355,7 +355,7 @@ def run(ctx, config='rel-all'):
     if b:
         I, r = arena.run_fn(ctx, b['id'], config)
         wc = own_calls(r, '::with_capacity_in')
-        cp = [e for e in r.events if len(e.stack) == 1 and e.kind == 'copy']
+        cp = [e for e in r.events if e.is_own() and e.kind == 'copy']
         sl = own_calls(r, '::set_len')
         n_ = app('len', SELF)
         okv = len(wc) == 1 and wc[0].args[0] == n_ and len(cp) == 1 and cp[0].callee == 'copy_nonoverlapping' and cp[0].args[0] == SELF and cp[0].args[2] == n_ and len(sl) == 1 and sl[0].args[1] == n_ \
@@ -382,7 +382,7 @@ def run(ctx, config='rel-all'):
         vecp = ('app', 'proj', SELF, 'collections::string::String.vec')
         okv = r.ret is not None and r.ret[0] == 'agg' and r.ret[1] == 'slice' and field_of(r.ret, 'ptr') == ('app', 'proj', ('app', 'proj', vecp, 'collections::vec::Vec.buf'), 'collections::raw_vec::RawVec.ptr') \
             and field_of(r.ret, 'len') == ('app', 'proj', vecp, 'collections::vec::Vec.len') and len(fg) == 1 and fg[0].args[0] == SELF
-        drops = [e for e in r.events if e.kind == 'drop' and len(e.stack) == 1 and not b['blocks'][e.block].get('cleanup')]
+        drops = [e for e in r.events if e.kind == 'drop' and e.is_own() and not b['blocks'][e.block].get('cleanup')]
         check('into_bump_str', 'returns the whole text (buf.ptr, len) and forgets the string: the buffer is never handed back to the arena', okv and not drops, '', b.get('span'))
     b = string_method(db, 'into_bytes')
     if b:
@@ -561,13 +561,13 @@ def check_tables(ctx, db, config):
     r = I.run_entry(b['id'])
     conts = set()
     for e in r.events:
-        if e.kind == 'branch' and len(e.stack) == 1:
+        if e.kind == 'branch' and e.is_own():
             d = e.val
             if d is not None and d[0] == 'cmp' and d[1] in ('ne', 'eq'):
                 x = [t for t in (d[2], d[3]) if t[0] == 'app' and t[1] == 'and' and C(192) in t[2:]]
                 k = [t for t in (d[2], d[3]) if t == C(128)]
                 if x and k:
-                    conts.add(e.block)
+                    conts.add(e.top_block())
     if len(conts) == 4:
         ctx.ok('R3', 'lossy decoder: 4 continuation-byte checks (byte & 0xC0 == 0x80): 1 + 1 + 2 for widths 2, 3, 4', 'branch conditions in MIR')
     else:
@@ -575,11 +575,11 @@ def check_tables(ctx, db, config):
     # cursor discipline (std): a chunk that ends in an error is source[i_..E] where E is the index of the byte whose check
     # failed -- the offending byte is NOT consumed and is examined again as the start of the next sequence
     g = db.cfg(b)
-    own = [e for e in r.events if len(e.stack) == 1]
+    own = [e for e in r.events if e.is_own()]
     probes = {}      # block -> index term of the safe_get it calls
     for e in own:
         if e.kind == 'call' and e.callee and e.callee.endswith('::safe_get') and len(e.args) == 2:
-            probes[e.block] = e.args[1]
+            probes[e.top_block()] = e.args[1]
     lead = [e for e in own if e.kind == 'call' and e.callee and e.callee.endswith('::unsafe_get') and len(e.args) == 2]
     exits = []
     for e in own:
@@ -590,14 +590,14 @@ def check_tables(ctx, db, config):
     froms = {}
     for e in own:
         if e.kind == 'call' and e.callee and e.callee.endswith('::index') and len(e.args) == 2 and e.args[1][0] == 'agg' and e.args[1][1].endswith('RangeFrom'):
-            froms[e.block] = field_of(e.args[1], 'start')
+            froms[e.top_block()] = field_of(e.args[1], 'start')
     bad = []
     ncur = 0
     if lead:
         i0 = lead[0].args[1]
         for e, st0, en0 in exits:
             ncur += 1
-            doms = [pb for pb in probes if g.block_dominates(pb, e.block)]
+            doms = [pb for pb in probes if g.block_dominates(pb, e.top_block())]
             # nearest dominating probe = the one dominated by all the others
             near = [pb for pb in doms if all(g.block_dominates(q, pb) for q in doms)]
             expect = probes[near[0]] if near else app('add', i0, C(1))
@@ -606,7 +606,7 @@ def check_tables(ctx, db, config):
             elif lin(en0) != lin(expect):
                 bad.append((e, 'the broken part must end at the byte whose check failed (%s), it ends at %s' % (show(expect)[:40], show(en0)[:40])))
             # the remainder starts where the broken part ends
-            rest = [v for bb, v in froms.items() if g.block_dominates(e.block, bb)]
+            rest = [v for bb, v in froms.items() if g.block_dominates(e.top_block(), bb)]
             if not rest or any(lin(v) != lin(en0) for v in rest):
                 bad.append((e, 'the remaining input must start exactly at the end of the broken part'))
     ctx.floor('R3', ncur, 7, 'error exits of the lossy decoder')
@@ -639,7 +639,7 @@ def check_tables(ctx, db, config):
         return
     J = arena.ArenaInterp(db)
     rr = J.run_entry(lb['id'])
-    pushes = [e for e in rr.events if len(e.stack) == 1 and e.kind == 'call' and e.callee and e.callee.endswith('::push_str')]
+    pushes = [e for e in rr.events if e.is_own() and e.kind == 'call' and e.callee and e.callee.endswith('::push_str')]
     repl = [e for e in pushes if 'REPLACEMENT' in repr(e.args[1]) or (e.args[1][0] == 'addr' and 'promoted' in repr(e.args[1])) or e.args[1][0] in ('agg', 'opaque', 'sym')]
     guarded = 0
     for e in repl:
